@@ -206,7 +206,6 @@ func vC05Run(s *vC05Script, g *vC05Gen, masks bool, mr *vRand, out *vOut) (res v
 		}
 		rig.apiMu.Unlock()
 	}()
-	initAll := rig.statusAll(api.TrackerStatusUndefined)
 	for i := 0; ; i++ {
 		var e vC05Ev
 		inflight := rig.fake.inflight()
@@ -238,38 +237,6 @@ func vC05Run(s *vC05Script, g *vC05Gen, masks bool, mr *vRand, out *vOut) (res v
 			return
 		}
 		o := rig.observe(s.NCid, ret)
-		if e.K == "recoverall" && ret != 0 {
-			// RecoverAll stops at the first cid that could not be queued; that cid is not part of the returned
-			// list. It is a recoverable entry of the previous listing that was not visited; the one whose listed
-			// status turned from unexpectedly_unpinned into pin_error if there is one (otherwise the candidates
-			// are observationally equivalent).
-			var prevAll [][2]int
-			if len(res.obs) > 0 {
-				prevAll = res.obs[len(res.obs)-1].All
-			} else {
-				prevAll = initAll
-			}
-			visited := map[int]bool{}
-			for _, c := range order {
-				visited[c] = true
-			}
-			now := map[int]int{}
-			for _, a := range o.All {
-				now[a[0]] = a[1]
-			}
-			pick := -1
-			for _, a := range prevAll {
-				if visited[a[0]] || (a[1] != 4 && a[1] != 8 && a[1] != 4096) {
-					continue
-				}
-				if pick < 0 || (a[1] == 4096 && now[a[0]] == 4) {
-					pick = a[0]
-				}
-			}
-			if pick >= 0 {
-				order = append(order, pick)
-			}
-		}
 		o.Order = order
 		if masks {
 			nm := 4
